@@ -5,7 +5,7 @@ from ctypes import c_int, byref
 import gens, blk, compcases as cc
 from capi import Lib, Buf
 
-THEOREMS = None
+THEOREMS = ["C17_target_ge_bound", "C17_target_ge_bound_contract", "C17_fast_destSize", "C17_fast_fill_generic"]
 CORRESPONDENCE = ["Model.FastApi.compress_destSize == LZ4_compress_destSize / _destSize_extState (return value, consumed size, bytes, high-water mark)"]
 RULE = ("inputs from the shared structured generators; EVERY targetDstSize 1..bound+1 for inputs <= 40 bytes, targets dense around each sequence boundary "
         "of the unconstrained output and random otherwise; entry points LZ4_compress_destSize, LZ4_compress_destSize_extState (any acceleration incl. <= 0 and huge), "
